@@ -14,6 +14,8 @@ var explainAddenda = map[string]string{
 	"C04": "(chmod-type) the mode handed to a backend Chmod never takes bits from the FileInfo of a (link-following) Stat.",
 	"C05": "(hit-rebinds) see C02; (dedup-atomic) the lookup of pathHandles that guards the insertion (in Allocate or a helper called inside its critical section) holds the write lock, precedes the insertion and no Unlock lies between them; (unmap-paired) an entry of pathHandles is deleted only in an activation that also deletes the handle it maps to: a live handle whose path mapping is gone makes the next LOOKUP of the path issue a second handle.",
 	"C08": "(swap/stores-on-success, admit-first: borrowed from C16) every successful return of UpdatePolicyOptions has stored the new policy, except behind a comparison that reads every PolicyOptions field; HandleCall consults the policy only after admission; (no-detached-work) see C16.",
+	"C09": "(admit-first, borrowed from C16) the allow-list and secure flag the gate consults are read only after admission under the policy read lock, so a request that waited out a policy update is not judged by the replaced policy.",
+	"C12": "(chmod-type, borrowed from C04) the type ACCESS keys LOOKUP/DELETE on is the object's own: the mode handed to a backend Chmod never takes type bits from a link-following Stat.",
 	"C13": "(full-read) no bare Read on a stream interface outside forwarding Read methods and counted read loops; (no-wrap) growing arithmetic on a wire-decoded value in a type of 32 bits or fewer is dominated by a bound test of the raw value; (all-fragments) every fragment ReadRecord reads is appended to the returned buffer or is itself the returned value on every path to a successful return.",
 	"C15": "(full-read, no-wrap, all-fragments) shared with C13; (nil-holes, shared with C29) a pointer slice preallocated with a length is filled on every iteration of the loop that indexes it, so no nil element reaches the consumers that dereference every element outside any recover.",
 	"C16": "(swap/stores-on-success) every successful return of UpdatePolicyOptions has stored the new policy, except behind a comparison that reads every PolicyOptions field; (admit-first) in HandleCall every call that reads the policy, directly or through a callee, is dominated by the admission (TryRLock success edge or RLock); (no-detached-work, also under C08) no function running under a request's policy read lock starts a goroutine that reaches the backend unless it waits for it on every path before returning (work that outlives the request escapes the drain); (limiter-fresh) UpdatePolicyOptions does not read the rate limiter it replaces except to compare it with nil or stop it, so no bucket built under the old limits survives the update.",
